@@ -109,7 +109,10 @@ inline const char* opkind_name(int k)
 enum ReadBits { RD_INFO = 1, RD_NITER = 2, RD_NOPS = 4, RD_VALUES = 8, RD_VECTORS = 16, RD_VECTORS_N = 32 };
 
 // fault types (what is thrown)
-enum FaultType { FT_SIMFAULT = 0, FT_RUNTIME = 1, FT_INT = 2 };
+// FT_POISON: the operator does not throw but silently returns a vector of NaN at that application (C14, RegularInverse
+// worlds: the library's own SparseRegularInverse::solve() then fails to converge and throws - a B-operator failure that
+// originates in real library code, the path the property text names)
+enum FaultType { FT_SIMFAULT = 0, FT_RUNTIME = 1, FT_INT = 2, FT_POISON = 3 };
 
 struct Fault
 {
